@@ -399,7 +399,7 @@ func verifLemmaMaxBodyTight(c *channelInstance, m *Message, chunkSize int, chunk
 // allocated during this call (the frame, or the buffer of the instance that decrypted it) -- never in
 // memory that existed before, so no later traffic can reach it (C20).
 //@ func (*SecureChannel).readChunk
-//@   props C13 C20
+//@   props C13 C20 C10
 //@   requires storedOK(s) && s.c != nil && uacp.connInv(s.c) && s.cfg != nil
 //@   requires s.openingInstance != nil ==> instOK(s.openingInstance)
 //@   assigns allbut SecureChannel uacp.Conn uacp.Acknowledge MessageChunk MessageHeader SequenceHeader Header SymmetricSecurityHeader AsymmetricSecurityHeader []*MessageChunk []*channelInstance map[uint32][]*MessageChunk map[uint32][]*channelInstance channelInstance.sc uapolicy.EncryptionAlgorithm.remoteSignatureLength uapolicy.EncryptionAlgorithm.signatureLength
